@@ -102,6 +102,33 @@ def _make_responder(trace, idx, attr, asgi):
     return responder
 
 
+class _FalsyCallable:
+    """A callable OBJECT (not a function) that is falsy - legal wherever falcon accepts 'a callable'."""
+
+    def __init__(self, fn):
+        self._fn = fn
+
+    def __bool__(self):
+        return False
+
+    def __len__(self):
+        return 0
+
+
+class _SyncCallable(_FalsyCallable):
+    def __call__(self, *a, **kw):
+        return self._fn(*a, **kw)
+
+
+class _AsyncCallable(_FalsyCallable):
+    async def __call__(self, *a, **kw):
+        return await self._fn(*a, **kw)
+
+
+def as_callable_object(fn, asgi):
+    return _AsyncCallable(fn) if asgi else _SyncCallable(fn)
+
+
 def _make_sink(trace, idx, asgi):
     if asgi:
         async def sink(req, resp, **kwargs):
@@ -114,21 +141,50 @@ def _make_sink(trace, idx, asgi):
     return sink
 
 
+class _Proxy:
+    """A delegating wrapper: responders are reachable through getattr() but not listed by dir()."""
+
+    def __init__(self, wrapped):
+        object.__setattr__(self, '_wrapped', wrapped)
+
+    def __getattr__(self, name):
+        return getattr(object.__getattribute__(self, '_wrapped'), name)
+
+    def __dir__(self):
+        return ['_wrapped']
+
+
 def make_resource(trace, idx, spec, asgi):
+    """-> (object registered with add_route, object whose attributes a later 'mutate' op changes).
+
+    spec['style']: None (ordinary class) | 'proxy' (__getattr__ wrapper around one) | 'nodir' (custom __dir__ that
+    lists nothing) | 'callobj' (responders are falsy callable objects stored as class attributes, not functions)."""
+    style = spec.get('style')
     ns = {}
     for attr in spec['callable']:
-        ns[attr] = _make_responder(trace, idx, attr, asgi)
+        if style == 'callobj':
+            ns[attr] = as_callable_object(_make_unbound_responder(trace, idx, attr, asgi), asgi)
+        else:
+            ns[attr] = _make_responder(trace, idx, attr, asgi)
     for attr in spec.get('noncallable', []):
         ns[attr] = 'not a responder'
+    dunders = {}
     if spec.get('falsy'):
-        ns['__bool__'] = lambda self: False
+        dunders['__bool__'] = lambda self: False
     if spec.get('eq') is not None:
         # value-object style resource: distinct instances of one group compare equal and hash alike
         group = ('eq-group', spec['eq'])
-        ns['_eq_group'] = group
-        ns['__eq__'] = lambda self, other: getattr(other, '_eq_group', None) == group
-        ns['__hash__'] = lambda self: hash(group)
-    return type('Res%d' % idx, (), ns)()
+        dunders['_eq_group'] = group
+        dunders['__eq__'] = lambda self, other: getattr(other, '_eq_group', None) == group
+        dunders['__hash__'] = lambda self: hash(group)
+    if style == 'nodir':
+        dunders['__dir__'] = lambda self: []
+    if style == 'proxy':
+        inner = type('Res%d' % idx, (), ns)()
+        return type('Proxy%d' % idx, (_Proxy,), dunders)(inner), inner
+    ns.update(dunders)
+    obj = type('Res%d' % idx, (), ns)()
+    return obj, obj
 
 
 def _make_unbound_responder(trace, idx, attr, asgi):
@@ -237,7 +293,9 @@ class Built:
         if cfg.get('own_router'):
             kw['router'] = falcon.routing.CompiledRouter()
         self.app = cls(sink_before_static_route=cfg['sink_first'], **kw)
-        self.resources = [make_resource(self.trace, i, spec, self.asgi) for i, spec in enumerate(cfg['resources'])]
+        pairs = [make_resource(self.trace, i, spec, self.asgi) for i, spec in enumerate(cfg['resources'])]
+        self.resources = [p[0] for p in pairs]
+        self.targets = [p[1] for p in pairs]
         self.model = M.Model(cfg['sink_first'], [set(s['callable']) for s in cfg['resources']], DIRS)
         self.nops = 0
         self.mutated = set()                # resources changed so far
@@ -266,12 +324,14 @@ class Built:
             self.route_after_mutation[template] = res_idx in self.mutated
         elif kind == 'mutate':
             _, res_idx, add, remove, on_instance = op
-            mutate_resource(self.trace, res_idx, self.resources[res_idx], add, remove, self.asgi, on_instance)
+            mutate_resource(self.trace, res_idx, self.targets[res_idx], add, remove, self.asgi, on_instance)
             self.model.mutate_resource(res_idx, add, remove)
             self.mutated.add(res_idx)
         elif kind == 'sink':
             _, idx, pattern, flags, precompiled = op
             sink = _make_sink(self.trace, idx, self.asgi)
+            if self.cfg.get('sink_objects'):
+                sink = as_callable_object(sink, self.asgi)
             if precompiled:
                 self.app.add_sink(sink, re.compile(pattern, flags))
             elif pattern == '/' and idx % 2 and not wk:
@@ -452,15 +512,32 @@ def check_request(rec, b, method, path, checkpoints=(), final=True):
             rec.count('cls.static-404-does-not-fall-through')
     if len(exp['alts']) > 1:
         rec.count('cls.several-routes-match')
+    for _i, sp, _d, _f in b.model.statics:
+        if sp.endswith('//') and path.startswith(sp.rstrip('/') + '/') and not path.startswith(sp) and \
+                not (cls == 'static' and alt['idx'] == _i):
+            rec.count('cls.static-several-slashes-does-not-claim-single-slash-path')
+            break
     if cls in ('responder', 'auto-options', '405'):
         wk = b.op_wrap('route', alt['template'])
         if wk:
             rec.count('cls.strsub-%s.route.%s' % (wk, cls))
         if b.route_after_mutation.get(alt['template']):
             rec.count('cls.route-added-after-resource-changed.' + cls)
+        style = None
+        for op in b.cfg['ops'][:b.nops]:
+            if op[0] == 'route' and op[1] == alt['template']:
+                style = b.cfg['resources'][op[2]].get('style')
+        if style:
+            rec.count('cls.resource-%s.%s' % (style, cls))
         if cls == 'responder' and b.cfg['resources'][alt['res']].get('eq') is not None:
             rec.count('cls.equal-but-distinct-resource.responder')
     elif cls in ('sink', 'static'):
+        if cls == 'sink' and b.cfg.get('sink_objects'):
+            rec.count('cls.sink-falsy-callable-object')
+        if cls == 'static' and b.model.statics and [p for i, p, _d, _f in b.model.statics if i == alt['idx']][0].endswith('//'):
+            rec.count('cls.static-prefix-several-slashes')
+        if path.startswith('//'):
+            rec.count('cls.leading-slashes.' + cls)
         wk = b.op_wrap(cls, alt['idx'])
         if wk:
             rec.count('cls.strsub-%s.%s' % (wk, cls))
@@ -623,6 +700,50 @@ BRANCH_REQUESTS = [('GET', '/r1/12'), ('POST', '/r1/042'), ('REPORT', '/r1/7/sub
                    ('GET', '/r2/common.txt/zz'), ('GET', '/r2/sub/common.txt')]
 
 
+def family_resource_styles():
+    """Resources whose responders are found by getattr() only (proxy / empty __dir__) or are falsy callable
+    objects: all subsets of the 5-method universe x plain/suffixed x stack; sinks as falsy callable objects."""
+    for style in ('proxy', 'nodir', 'callobj'):
+        for mask in range(32):
+            S = [m for i, m in enumerate(U5) if mask >> i & 1]
+            rest = [m for m in U5 if m not in S] + ['DELETE']
+            for suffix in (None, 'x'):
+                if suffix and not S:
+                    continue
+                for stack in ('wsgi', 'asgi'):
+                    attrs = [M.responder_name(m, suffix) for m in S] + \
+                            [M.responder_name(m, None if suffix else 'x') for m in rest]
+                    yield {'stack': stack, 'sink_first': bool(mask & 1), 'sink_objects': bool(mask & 2),
+                           'resources': [{'callable': sorted(attrs), 'style': style, 'falsy': mask % 5 == 0}],
+                           'ops': [['sink', 0, '/', 0, False], ['route', '/r0/{id}', 0, suffix]]}
+
+
+def family_slashes():
+    """Static prefixes ending in several slashes next to the single-slash spelling; request paths with doubled
+    slashes inside and at the start."""
+    for stack in ('wsgi', 'asgi'):
+        for sink_first in (True, False):
+            for catch_all in (True, False):
+                ops = [['static', 0, '/st0', 1, None, False],
+                       ['static', 1, '/st0//', 0, None, False],
+                       ['static', 2, '/st1///', 2, 'index.html', False],
+                       ['static', 3, '//dbl', 3, None, False],
+                       ['route', '/things', 0, None],
+                       ['route', '/things/{id}', 0, 'x'],
+                       ['sink', 1, '//s', 0, False]]
+                if catch_all:
+                    ops.insert(0, ['sink', 0, '/', 0, False])
+                yield {'stack': stack, 'sink_first': sink_first, 'resources': [{'callable': ['on_get', 'on_get_x']}],
+                       'ops': ops}
+
+
+SLASH_REQUESTS = [('GET', p) for p in (
+    '/st0/common.txt', '/st0//common.txt', '/st0///common.txt', '/st0/only0.txt', '/st0//only0.txt', '/st0//', '/st0/',
+    '/st1/common.txt', '/st1//common.txt', '/st1///common.txt', '/st1///zz.txt', '/st1//', '/st1///', '/st1',
+    '//dbl/common.txt', '/dbl/common.txt', '//dbl', '//zz', '//s', '//s/1', '/s', '///', '/things', '/things/7')] + \
+    [('PUT', '/st0/common.txt'), ('HEAD', '/st0//common.txt'), ('OPTIONS', '/things/7'), ('PUT', '//zz')]
+
+
 def family_arg_types():
     """str arguments passed as str SUBCLASSES whose str()/format() differ from their value ((str, Enum) member,
     LoudStr), directories as pathlib.Path: every op alone and all together x option x stack."""
@@ -668,12 +789,25 @@ EQUAL_REQUESTS = [(m, p) for p in ('/a', '/b', '/c', '/d', '/e', '/f', '/g', '/h
                   for m in ('GET', 'PUT', 'POST', 'DELETE', 'PATCH', 'REPORT', 'OPTIONS')]
 
 
+def apply_or_report(rec, b, checkpoints):
+    """Every generated add_* call is legal: an app that refuses it cannot dispatch as the statement demands."""
+    try:
+        b.apply_next()
+        return True
+    except Exception as ex:  # noqa
+        rec.count('mon.add-op-refused')
+        rec.violation('legal-add-op-raised', {'cfg': b.cfg, 'custom': CUSTOM, 'nops': b.nops, 'checkpoints': list(checkpoints),
+                                              'op': b.cfg['ops'][b.nops - 1], 'exc': repr(ex)})
+        return False
+
+
 def run_config_fixed(rec, root, cfg, requests, every_step):
     b = Built(cfg, root)
     checkpoints = []
     n = len(cfg['ops'])
     for step in range(n):
-        b.apply_next()
+        if not apply_or_report(rec, b, checkpoints):
+            return
         final = step == n - 1
         if final or every_step:
             for method, path in requests:
@@ -719,7 +853,7 @@ def sink_pool(rng):
 
 def static_prefix_pool(rng):
     k = rng.randrange(3)
-    return ['/st%d' % k, '/st%d/' % k, '/st%d/sub' % k, '/r%d' % k, '/s%d' % k, '/', '/st%d' % ((k + 1) % 3), '/St%d' % k]
+    return ['/st%d' % k, '/st%d/' % k, '/st%d/sub' % k, '/r%d' % k, '/s%d' % k, '/', '/st%d' % ((k + 1) % 3), '/St%d' % k, '/st%d//' % k, '/st%d///' % k]
 
 
 def gen_method_subset(rng):
@@ -785,6 +919,7 @@ def gen_config(rng):
         used_prefixes.append(prefix)
         ops.append(['static', i, prefix, d, rng.choice([None, None, 'index.html', 'sub/common.txt']), rng.random() < 0.2])
         p = prefix.rstrip('/')
+        hints += [prefix + 'common.txt', prefix + '/common.txt', prefix, p + '//only%d.txt' % d]
         hints += [p + '/common.txt', p + '/only%d.txt' % d, p + '/sub/common.txt', p + '/nope.txt', p or '/', p + '/',
                   p + 'x/common.txt', p + '/7', p + '/sub', p + '/abc']
     # an already used static prefix registered again over another directory
@@ -807,7 +942,8 @@ def gen_config(rng):
             path = '/' + '/'.join(s[1] if s[0] == 'lit' else rng.choice(FIELD_VALUES) for s in segs)
             hints += [path, path + '/', path + '/extra', path.rsplit('/', 1)[0] or '/']
     hints += ['/', '/zz', '/r0/7', '/s0/12', '/st0/common.txt', '/abc/def.txt', '/r1/abc', '/r1/12', '/r2/x/sub',
-              '/R0/x', '/r0/x', '/r0/X', '/St0/common.txt', '/ST0/common.txt', '/S0/12']
+              '/R0/x', '/r0/x', '/r0/X', '/St0/common.txt', '/ST0/common.txt', '/S0/12',
+              '//zz', '//r0/7', '//s0/12', '///', '//st0/common.txt', '/r0//7', '/s0//12']
     # a resource gains / loses responders between two add_* calls (only unsuffixed ones are removed, so that a
     # later suffixed route still finds a responder)
     if rng.random() < 0.3:
@@ -831,6 +967,9 @@ def gen_config(rng):
         g = rng.randrange(2)
         for r in resources:
             r['eq'] = g                 # all resources of this app compare equal and hash alike
+    for r in resources:
+        if rng.random() < 0.3:
+            r['style'] = rng.choice(['proxy', 'nodir', 'callobj'])
     wrap = {}
     if rng.random() < 0.3:
         kind = rng.choice(['enum', 'loud'])
@@ -840,7 +979,8 @@ def gen_config(rng):
         mw = {'hook': rng.choice(['request', 'resource']), 'status': rng.choice([None, 202, 202, 404, 201]),
               'allow': rng.choice([None, None, 'BOGUS', 'GET, BOGUS', '']), 'dependent': rng.random() < 0.3}
     return {'stack': rng.choice(['wsgi', 'asgi']), 'sink_first': rng.random() < 0.5,
-            'resources': resources, 'ops': ops, 'mw': mw, 'wrap': wrap, 'own_router': rng.random() < 0.15,
+            'resources': resources, 'ops': ops, 'mw': mw, 'wrap': wrap, 'sink_objects': rng.random() < 0.25,
+            'own_router': rng.random() < 0.15,
             'compile_now': rng.random() < 0.25}, sorted(set(hints))
 
 
@@ -858,7 +998,8 @@ def run_random_config(rec, root, rng):
     n = len(cfg['ops'])
     checkpoints = []
     for step in range(n):
-        b.apply_next()
+        if not apply_or_report(rec, b, checkpoints):
+            return cfg
         final = step == n - 1
         if not final and rng.random() < 0.5:
             continue
@@ -905,7 +1046,9 @@ def run(rec):
             for _ in range(2):
                 run_config_fixed(rec, root, cfg, BRANCH_REQUESTS, every_step=True)   # every shard: tiny
             rec.count('exh.branch-class-configs')
-        for fam, reqs, counter in ((family_arg_types, ARG_TYPE_REQUESTS, 'exh.arg-type-configs'),
+        for fam, reqs, counter in ((family_resource_styles, SUBSET_REQUESTS, 'exh.resource-style-configs'),
+                                   (family_slashes, SLASH_REQUESTS, 'exh.slash-configs'),
+                                   (family_arg_types, ARG_TYPE_REQUESTS, 'exh.arg-type-configs'),
                                    (family_equal_and_changing_resources, EQUAL_REQUESTS, 'exh.equal-resource-configs')):
             for cfg in fam():
                 idx += 1
@@ -976,6 +1119,15 @@ def run(rec):
     for cls in ('sink', 'static', '404'):
         rec.floor('cls.preset-status.request.%s' % cls, 40)
     rec.floor('exh.arg-type-configs', 56)
+    rec.floor('exh.resource-style-configs', 378)
+    rec.floor('exh.slash-configs', 8)
+    for style in ('proxy', 'nodir', 'callobj'):
+        for c in ('responder', '405', 'auto-options'):
+            rec.floor('cls.resource-%s.%s' % (style, c), 40)
+    for c in ('cls.sink-falsy-callable-object', 'cls.static-prefix-several-slashes',
+              'cls.static-several-slashes-does-not-claim-single-slash-path', 'cls.leading-slashes.sink',
+              'cls.leading-slashes.static'):
+        rec.floor(c, 40)
     rec.floor('exh.equal-resource-configs', 8)
     for kind in ('enum', 'loud'):
         for c, n in (('route.responder', 40), ('route.405', 10), ('route.auto-options', 10), ('sink', 40), ('static', 40)):
@@ -1000,6 +1152,17 @@ def replay(rec, w):
     root = make_dirs()
     try:
         b = Built(cfg, root)
+        if 'op' in wit and 'method' not in wit:        # a refused add_* call: re-apply the history
+            rec.case(('replay', 'add'))
+            rec.case(('replay', 'x'))
+            cps = []
+            while b.nops < wit['nops']:
+                if not apply_or_report(rec, b, cps):
+                    break
+                if b.nops in wit.get('checkpoints', []):
+                    b.request('GET', '/')           # requests were served at this point of the history
+            print('replayed add history: violations', rec.counters.get('violations', 0))
+            return
         for cp in list(wit.get('checkpoints', [])) + [wit['nops']]:
             while b.nops < cp:
                 b.apply_next()
